@@ -1,6 +1,8 @@
 """C03  Split.run follows its documented block/branch schedule for every branch mix.
 
 spec/Split.tla     operational scheduler (active list + index) = declarative SplitSem (spec/SplitSem.tla);
+                   eq (branch elements with an == of their own: equal to everything / Sum-like totals; guard
+                   SpecEqDrop), explicit Sequence objects around fill elements (plain Sequences all the same);
                    scenario families: classic (<= 2 branches, 13 kinds), wide (every mix of the four classes,
                    <= 4 branches), forms (every way of handing a branch to Split, result multiplicities,
                    Sources with tails, Splits as branches), modes (the same object rerun / abandoned /
@@ -32,6 +34,8 @@ def kind_key(k):
     m = k.get("m", NONE)
     if m != NONE and not (k["t"] == "src" and m == 2):
         s += "*%d" % m
+    if k.get("eq", "id") != "id":
+        s += "~" + k["eq"]
     return s
 
 
@@ -79,13 +83,13 @@ def run_list(s, flow):
 # ---------------------------------------------------------------------------------------------- odd values
 def odd_ok(brs):
     """Odd flow values make sense unless a branch computes with the values (filt: v % 2, pp: v + 100)."""
-    return all(k["t"] != "filt" and k.get("form", "el") != "pp" for k in flat_kinds(brs))
+    return all(k["t"] != "filt" and k.get("form", "el") not in ("pp", "sqpp") for k in flat_kinds(brs))
 
 
 def odd_res_ok(brs):
     """Odd results make sense unless an element behind the branch element looks into the results
     (pp: post-processing retags them; Sources with a tail)."""
-    return all(k.get("form", "el") not in ("pp", "fct") and not (k["t"] == "src" and k.get("form", "el") == "obj")
+    return all(k.get("form", "el") not in ("pp", "sqpp", "fct") and not (k["t"] == "src" and k.get("form", "el") == "obj")
                for k in flat_kinds(brs))
 
 
@@ -478,13 +482,14 @@ def misc(ctx):
     expect_exc(ctx, "Zip:fields-length:3", lambda: lena.flow.Zip([sl.TFC(1)], fields=["a", "b", "c"]), lena.core.LenaTypeError)
 
 
-FORMS = {"src": ["el", "el", "obj", "sub", "fct"], "fc": ["el", "el", "tup", "obj", "pp", "sl"],
-         "fr": ["el", "el", "tup", "obj", "pp", "sl"], "map": ["el", "tup", "obj", "pp"],
+FORMS = {"src": ["el", "el", "obj", "sub", "fct"], "fc": ["el", "el", "tup", "obj", "pp", "sl", "sq", "sqpp", "sqin", "run"],
+         "fr": ["el", "el", "tup", "obj", "pp", "sl", "sq", "run"], "map": ["el", "tup", "obj", "pp"],
          "filt": ["el", "tup", "obj", "pp", "attr", "attr2"], "seq": ["el", "el", "tup", "obj", "pp", "attr", "attr2"]}
 
 
-def full_kind(t, stop=NONE, m=NONE, form="el", sub=(), ibs=NONE):
-    return {"t": t, "stop": stop, "m": 2 if (t == "src" and m == NONE) else m, "form": form, "sub": list(sub), "ibs": ibs}
+def full_kind(t, stop=NONE, m=NONE, form="el", sub=(), ibs=NONE, eq="id"):
+    return {"t": t, "stop": stop, "m": 2 if (t == "src" and m == NONE) else m, "form": form, "sub": list(sub), "ibs": ibs,
+            "eq": eq}
 
 
 def random_kind(rnd, nested_ok=True):
@@ -507,13 +512,17 @@ def random_kind(rnd, nested_ok=True):
     form = rnd.choice(FORMS[t])
     stop, m = NONE, NONE
     if t in ("fc", "fr"):
-        if form == "sl" or rnd.random() < 0.6:
+        # an element inside an explicit Sequence object never stops (what a LenaStopFill does to a Sequence
+        # is not part of the statement)
+        if form not in sl.SEQ_OBJ_FORMS and (form == "sl" or rnd.random() < 0.6):
             stop = rnd.randint(0, 12)
-        if rnd.random() < 0.3:
+        if rnd.random() < 0.3 and not (t == "fr" and form == "sq"):
             m = rnd.choice([0, 2, 3])
     if t == "src":
         m = rnd.choice([2, 2, 0, 1, 3])
-    return full_kind(t, stop, m, form)
+    # what == says about the element: nothing the schedule may depend on
+    eq = rnd.choice(["id", "id", "id", "all", "tot"])
+    return full_kind(t, stop, m, form, eq=eq)
 
 
 def random_cfg(rnd):
@@ -529,7 +538,7 @@ def run(ctx):
     tag = "thorough" if ctx.thorough else "quick"
     ctx.assume("branches are harness elements with tagged outputs; flow values are the integers 0..N-1 "
                "(and, for every scenario without arithmetic branches, arbitrary objects at these positions)")
-    branch_actions = ("ReadBlock", "BranchSrc", "BranchFC", "BranchFR", "BranchSeq", "BlockDone", "Final")
+    branch_actions = ("ReadBlock", "BranchSrcG", "BranchFCG", "BranchFRG", "BranchSeq", "BlockDone", "Final")
     th = "_thorough" if ctx.thorough else ""
     w = ctx.nworkers
     jobs = [tlcpar.mc("Split", "Split_%s.cfg" % tag, ("Identity", "Rerun") + branch_actions, workers=max(2, 3 * w // 4)),
@@ -545,6 +554,20 @@ def run(ctx):
         jobs.append(tlcpar.mc("Split", "Split_deep.cfg", (), workers=max(2, w // 2), coverage=False))
     res = tlcpar.run_jobs(ctx, jobs)
     recs, recs2 = res[3] + res[4], res[5]
+    # sensitivity guards: a scheduler that looks a finished branch up by == (SpecEqDrop) must be refuted over
+    # branch elements that are equal to everything and over elements that compare their totals (lena.math.Sum)
+    for cfg in ("Split_eqdrop_all.cfg", "Split_eqdrop_tot.cfg"):
+        g = ctx.mc("Split", cfg, expect_violation="report", workers=2)
+        if g.violated != "OpEqDen":
+            raise core.MachineryError("the Split model is insensitive to ==: %s did not refute OpEqDen" % cfg)
+    dims = collections.Counter()
+    for rec in recs:
+        for k in flat_kinds(rec["brs"]):
+            dims["eq:" + k.get("eq", "id")] += 1
+            dims["form:" + k.get("form", "el")] += 1
+    for d in ("eq:all", "eq:tot", "form:sq", "form:sqpp", "form:sqin", "form:run"):
+        if not dims[d]:
+            raise core.MachineryError("no exported scenario with a branch of %s" % d)
     seen_modes = collections.Counter()
     for i, rec in enumerate(recs):
         seen_modes[rec["mode"]] += 1
